@@ -657,7 +657,10 @@ func (c *c15) doTick(o *c15op) {
 	c.clk.SetTime(c.now)
 	res := "ok"
 	start := time.Now()
-	wait := 10 * time.Second
+	// generous on a healthy tree (an overloaded machine has been seen to need
+	// more than 10 s once), short once the tree has shown that its timers are
+	// broken
+	wait := 30 * time.Second
 	if c.tickTimeouts >= 3 {
 		wait = 1500 * time.Millisecond
 	}
